@@ -114,9 +114,8 @@ class Converter:
 
         for n, space_dim in enumerate(self.search_space_values):
             values_1d = values_np[:, n]
-            # m_conv = np.abs(values_1d - space_dim[:, np.newaxis])
-            # pos_list = m_conv.argmin(0)
-            pos_list = space_dim.searchsorted(values_1d)
+            m_conv = np.abs(values_1d - np.array(space_dim)[:, np.newaxis])
+            pos_list = m_conv.argmin(0)
 
             positions_temp.append(pos_list)
 
